@@ -41,6 +41,8 @@ func C06(c *Ctx) {
 	r.Rule("C06/R5", "restart leads collected/cancelled -> idle and is issued by the node on the collected path", 4)
 	r.Rule("C06/R6", "a stale deadline cannot cancel a batch before t contributions arrived (shared with C07/R4)", 1)
 	c07DeadlineAs(c, "C06/R6")
+	r.Rule("C06/R8", "a contribution that counts carries at least one partial signature: the request's validation refuses an empty list (a counted participant without shares is dropped from the reconstruction's input, which then starts below t)", 1)
+	c06NonEmptyContribution(c)
 	r.Rule("C06/R7", "whether a contribution (or a failure report) counts does not depend on time stamps: the two receiving callbacks branch on no value derived from a time.Time", 2)
 	for _, ev := range []string{evPartialSign, evPartialSignError} {
 		cb := m.Callbacks[ev]
@@ -388,4 +390,29 @@ func c06CollectedAlwaysRestarts(c *Ctx, rule string, fn *ssa.Function) {
 	}
 	r.Check(!bad, rule, "node.processMessage:collected-always-restarts", "after a collected batch the state is saved only past the restart (round back to idle)", c.PosOf(mainDo),
 		"with resp.State == collected the final SaveFSM is reachable without Do(event_signing_restart): the round would be persisted in the collected state and reject the next proposal")
+}
+
+
+// c06NonEmptyContribution: the validator of the signing stage counts statuses, the reconstruction takes shares. The two agree
+// only if a participant cannot be marked confirmed without delivering a share: Validate() of the partial-signature request
+// returns nil only where len(PartialSigns) >= 1 is known.
+func c06NonEmptyContribution(c *Ctx) {
+	r := c.R
+	fn := c.Fn("C06/R8", pkgRequests, "SigningProposalBatchPartialSignRequests", "Validate")
+	if fn == nil {
+		return
+	}
+	atLeast := lenAtLeastEdges(fn, func(p string) bool { return strings.HasSuffix(p, ".PartialSigns") }, 1)
+	nOK, bad := 0, ""
+	for _, ret := range ssax.Returns(fn) {
+		if len(ret.Results) != 1 || !ssax.IsNilConst(ssax.Resolve(ret.Results[0])) {
+			continue
+		}
+		nOK++
+		if len(atLeast) == 0 || ssax.ReachableAvoiding(fn, ret, atLeast, nil) {
+			bad = c.PosOf(ret)
+		}
+	}
+	r.Check(nOK >= 1 && bad == "", "C06/R8", "requests.SigningProposalBatchPartialSignRequests.Validate:non-empty", "the request is accepted only with at least one partial signature", c.Pos(fn.Pos()),
+		sprintf("%d accepting returns; the one at %s is reachable without len(PartialSigns) >= 1: an answer with an empty list marks its sender confirmed, the count reaches t, and the reconstruction (which skips participants without shares) starts with fewer than t contributions", nOK, bad))
 }
